@@ -301,10 +301,10 @@ func covers(s *spec, p selPos) bool {
 }
 
 func runC08(c *engine.Ctx) {
-	r1 := c.Rule("R1", "the validator's walk covers every clause kind ParseSelector accepts that carries a nested selector, at every nested position; recursive clauses also reach their limit", 8)
+	r1 := c.Rule("R1", "the validator's walk covers every clause kind ParseSelector accepts that carries a nested selector, at every nested position; recursive clauses also reach their limit", 4)
 	r2 := c.Rule("R2", "the match callback returns nil only for key 'depth' with value <= max (strict >); everything else is an error", 1)
 	r3 := c.Rule("R3", "the hook calls ValidateRequest only when ValidateMaxRecursionDepth(request.Selector(), max) returned nil", 1)
-	r4 := c.Rule("R4", "validator registered by default with depth 100; only RejectAllRequestsByDefault disables it; only ValidateRequest sets the flag; unvalidated => prepareQuery fails => not queued", 6)
+	r4 := c.Rule("R4", "validator registered by default with depth 100; only RejectAllRequestsByDefault disables it; only ValidateRequest sets the flag; unvalidated => prepareQuery fails => not queued", 4)
 
 	table, fnOf, ok := parserTable(c, r1)
 	if !ok {
